@@ -12,7 +12,7 @@ import json
 
 from hypothesis import strategies as st
 
-from vgv import envs, gen, model as M, objs
+from vgv import envs, gen, model as M, objs, prelude
 from vgv.framework import Check, guarded
 
 from gym_gridverse import design
@@ -110,6 +110,7 @@ def recolour(o, colour):
 
 def oracle_for(prop):
     def oracle(case, ctx):
+        prelude.door_first(ctx)
         space, chain = case['space'], case['chain']
         d = json.loads(json.dumps(case['state']))
         shape = M.shape(d)
